@@ -191,3 +191,32 @@ func TestKF_C15_RangeErrorBody(t *testing.T) {
 			[]string{"push a 2 byte blob", "GET it with Range: bytes=100-200"}, nil)
 	}
 }
+
+// Listed finding C14/referrers-off-on-converted-layout (the C14 face of finding 30): a read-only directory store, and a
+// memory store over the directory, with the referrers API off do not serve what a default server wrote.
+func TestKF_C14_ReferrersOffConvertedLayout(t *testing.T) {
+	st := newStats("TestKF_C14_ReferrersOffConvertedLayout", "C14", "reproducer")
+	root := mkTemp("kf14")
+	defer os.RemoveAll(root)
+	ws := olareg.New(baseConf(config.StoreDir, root))
+	cd := kfPush(t, ws, "pre", []byte("{}"))
+	child, _ := buildImage(mtImage, mtConfig, cd, 2, nil, nil, nil, "", map[string]string{"role": "child"})
+	childD := dig("sha256", child)
+	kfPut(t, ws, "pre", childD, mtImage, child)
+	idx, _ := buildIndex(mtIndex, []mdesc{{MediaType: mtImage, Digest: childD, Size: int64(len(child))}}, nil, "", nil)
+	kfPut(t, ws, "pre", "multi", mtIndex, idx)
+	_ = ws.Close()
+	before := treeSnapshot(root, true)
+	for _, kind := range []config.Store{config.StoreDir, config.StoreMem} {
+		c := baseConf(kind, root)
+		c.Storage.ReadOnly, c.API.Referrer.Enabled = bp(true), bp(false)
+		srv := olareg.New(c)
+		codes := []int{doReq(srv, "GET", "/v2/pre/manifests/multi", nil, hdr("Accept", acceptAll)).code, doReq(srv, "GET", "/v2/pre/manifests/multi", nil, hdr("Accept", acceptAll)).code,
+			doReq(srv, "GET", "/v2/pre/manifests/"+childD, nil, hdr("Accept", acceptAll)).code}
+		_ = srv.Close()
+		if codes[0] != 200 || codes[1] != 200 || codes[2] != 200 {
+			Fail(kfT{t}, st, "referrers-off-on-converted-layout", fmt.Sprintf("read-only store (type %v) with the referrers API off over a directory that a default server wrote: GET index by tag, again, GET its child by digest answer %v, want 200 each (the directory itself stays untouched: %v)", kind, codes, treeSnapshot(root, true) == before),
+				[]string{"default server: push child by digest, index [child] under tag multi, Close", "read-only server with API.Referrer.Enabled=false on the same directory", "GET index by tag twice, GET child by digest"}, nil)
+		}
+	}
+}
